@@ -69,6 +69,12 @@ def deep_specs(tier):
     return [{"mix": "deep", "seed": SEED * 10 + k, "events": 40, "cfg": "TraceLight", "extra": ["--depth", str(d)]} for k, d in enumerate([66, 80, 130, 200, 260])]
 
 
+def wide_specs(tier):
+    """sibling lists of 18-30 children and long top-level chains; validated with TraceLight.cfg"""
+    n = 2 if tier == "quick" else 6
+    return [{"mix": "wide", "seed": SEED * 10 + k, "events": 40 if tier == "quick" else 150, "cfg": "TraceLight"} for k in range(n)]
+
+
 def boundary_specs(tier):
     if tier == "quick":
         return [{"mix": "boundary", "seed": SEED * 100 + k, "events": 0} for k in range(4)]
@@ -181,14 +187,17 @@ def check_property(prop, tier):
             specs += boundary_specs(tier)
         if prop in ("C02", "C05", "C09", "C01"):
             specs += deep_specs(tier)
+        if prop in ("C01", "C03", "C04", "C09", "C10"):
+            specs += wide_specs(tier)
         if prop == "C16":
             # serde round trips with payload types that exercise more of serde's data model
             for i, sp in enumerate(specs):
                 sp["extra"] = sp.get("extra", []) + ["--payload", ["u32", "string", "rich", "option"][i % 4]]
         if prop == "C08":
-            # payload objects with identity and destructor: the events carry the slots whose destructor ran
-            for sp in specs:
-                sp["extra"] = sp.get("extra", []) + ["--tracked-payload"]
+            # payload objects with identity and destructor (the events carry the slots whose destructor ran),
+            # and a zero-sized and a large payload type
+            for i, sp in enumerate(specs):
+                sp["extra"] = sp.get("extra", []) + (["--payload", "zst"] if i % 5 == 3 else ["--payload", "large"] if i % 5 == 4 else ["--tracked-payload"])
         r = run_traces(b, specs, prop)
         if prop in ("C06", "C07"):
             # the end of the generation counter again without debug assertions (a debug_assert can hide a reissue behind a panic)
